@@ -17,6 +17,7 @@ func checkC04(c *Ctx, r *Report) {
 	ruleG1(c, r, scope, "G1")
 	ruleG2(c, r, scope, "G2")
 	ruleG3(c, r, scope, 12)
+	ruleG3Lin(c, r, scope)
 	ruleG4(c, r, scope, map[string]func(*Ctx, *Report, string) bool{
 		"mp4.Dec3Box.Info:(Dec3Box).EC3Subs[0]":                          invAppendedAtLeastOnce("mp4", "Dec3Box", "EC3Subs", 1),
 		"mp4.Dec3Box.ChannelInfo:(Dec3Box).EC3Subs[0]":                   invAppendedAtLeastOnce("mp4", "Dec3Box", "EC3Subs", 1),
@@ -34,6 +35,7 @@ func checkC04(c *Ctx, r *Report) {
 	r.Floor("G8", 8)
 	ruleG5(c, r, scope, map[string]func(*Ctx, *Report, string) bool{"mp4.SencBox.ParseReadBox:/ (SencBox).SampleCount": invSencSampleCount})
 	ruleG6(c, r)
+	ruleNoReaderAliasing(c, r)
 	ruleBoxSizeGuard(c, r)
 	r.Floor("G1", 15)
 	r.Floor("G2", 5)
